@@ -891,6 +891,10 @@ def main(ctx, replay):
         elif len(samples) < 8 and rng.random() < 0.004:
             samples.append({"case": c, "policy": pol_in[pi], "observed": {"sent": r["sent"], "err_class": r["err_class"], "status": r["status"]}})
 
+    # a reload that changes the egress policy must be refused as "restart required" (the deliverer keeps the policy it was built with):
+    # lib/restartclass.py, including rule lists that hold one rule twice in different spellings
+    from lib import restartclass
+    dist.update(restartclass.run(ctx, info))
     idn_stats, idn_err = idn_block(ctx, info, rng)
     dist["idn"] = idn_stats
     evaluations += idn_stats["cases"]
